@@ -9,7 +9,7 @@ import peg_parser.tokenize as t
 out = {
     "ours": {k: getattr(t, k) for k in ("Whitespace", "Comment", "Name", "Hexnumber", "Binnumber", "Octnumber", "Decnumber", "Intnumber",
                                          "Exponent", "Pointfloat", "Expfloat", "Floatnumber", "Imagnumber", "Number", "StringStart", "Special",
-                                         "SearchPath", "PseudoToken", "StartLBrace", "EndRBrace") if hasattr(t, k)},
+                                         "SearchPath", "PseudoToken", "StartLBrace", "EndRBrace", "SpecLBrace", "SpecRBrace") if hasattr(t, k)},
     "startpats": dict(getattr(t, "startpats", {})),
     "endpats": dict(t.endpats),
     "ops": sorted(t.OPS),
